@@ -979,6 +979,24 @@ Proof.
   rewrite forallb_forall in H1, H2. split; assumption.
 Qed.
 
+Lemma drivers_ok_spec ids t :
+  drivers_ok ids t = true ->
+  (forall k b, driver_pp t k = Some b -> b = ends_pp k) /\
+  (forall i, In i ids -> ends_pp i = true -> driver_pp t i = Some true).
+Proof.
+  unfold drivers_ok. intro H. apply andb_true_iff in H. destruct H as [H1 H2].
+  rewrite forallb_forall in H1, H2.
+  assert (A : forall k b, driver_pp t k = Some b -> b = ends_pp k).
+  { intros k b. unfold driver_pp.
+    destruct (find (fun e => bytes_eqb (fst (fst e)) k) t) as [e|] eqn:F; [|discriminate].
+    intro E. inversion E; subst. apply find_some in F. destruct F as [Hin Hk].
+    apply bytes_eqb_eq in Hk. subst k. specialize (H1 e Hin). apply Bool.eqb_prop in H1. exact H1. }
+  split; [exact A|].
+  intros i Hin Hpp. specialize (H2 i Hin). rewrite Hpp in H2. simpl in H2.
+  destruct (driver_pp t i) as [b|] eqn:E; [|discriminate].
+  rewrite (A i b E), Hpp. reflexivity.
+Qed.
+
 Section Families.
   Variable H : bytes -> bytes.
 
@@ -1006,6 +1024,19 @@ Section Families.
       - assert (concat hs = []) by (apply (app_inv_tail (pp r2)); simpl; exact (eq_sym E2)).
         rewrite (concat_hex_nil hs Hhs) in E1 by assumption. rewrite app_nil_r in E1. symmetry. exact E1. }
     destruct Hone as [Hd|[Hd|[Hd|[Hd|[Hd|[Hd|Hd]]]]]]; try tauto.
+  Qed.
+
+  (* the driver mode keeps the C and the C++ driver of one binary apart *)
+  Theorem driver_mode_separates sp ids t r k1 k2 b1 b2 :
+    spec_good sp -> drivers_ok ids t = true ->
+    driver_pp t k1 = Some b1 -> driver_pp t k2 = Some b2 -> ends_pp k1 = true -> ends_pp k2 = false ->
+    wf_c sp (set_plusplus r b1) = true -> wf_c sp (set_plusplus r b2) = true ->
+    encode_c H sp (set_plusplus r b1) <> encode_c H sp (set_plusplus r b2).
+  Proof.
+    intros G D E1 E2 P1 P2 W1 W2 E.
+    destruct (drivers_ok_spec ids t D) as [A _].
+    pose proof (A _ _ E1) as B1. pose proof (A _ _ E2) as B2. rewrite P1 in B1. rewrite P2 in B2. subst b1 b2.
+    destruct (encode_c_inj_gen H sp _ _ G W1 W2 E) as (_ & Eb & _). simpl in Eb. discriminate.
   Qed.
 
   Theorem boundary_shift_c sp r pre a b s post :
